@@ -164,3 +164,36 @@ PLAN = {
         "level_note": "Trusted: pyvc encoder; Event interface contract; h2/priority behave as their assumed contracts; fairness (promptly) is assumed; byte payloads abstracted to lengths.",
     },
 }
+
+AW, TW = "hypercorn.asyncio.worker_context:", "hypercorn.trio.worker_context:"
+ATG, TTG = "hypercorn.asyncio.task_group:", "hypercorn.trio.task_group:"
+ATS, TTS = "hypercorn.asyncio.tcp_server:TCPServer.", "hypercorn.trio.tcp_server:TCPServer."
+EVENT_UNITS = [w + "EventWrapper." + m for w in (AW, TW) for m in ("__init__", "set", "clear", "is_set", "wait")]
+SINGLE_UNITS = [AW + "AsyncioSingleTask." + m for m in ("__init__", "restart", "stop")] + [TW + "TrioSingleTask." + m for m in ("__init__", "restart", "stop")]
+SERVER_UNITS = [s_ + m for s_ in (ATS, TTS) for m in ("run", "protocol_send", "_read_data", "_close", "_initiate_server_close", "_idle_timeout")]
+LIB_IO = ["assumed contracts for asyncio.StreamReader/StreamWriter, sockets, trio streams (pyvc/models_io.py) and for asyncio/trio events, locks, task groups, nurseries, cancel scopes, wait_for / move_on_after / fail_after with a ghost clock (pyvc/models_rt.py)",
+          "the protocol seen by the servers is the port contract pyvc:ProtocolPort (contracts/i_servers.py); ProtocolWrapper itself is verified against the protocol ports in d_h11_protocol.py"]
+RT_ASSUME = ["cancellation of a task from outside is not modelled except where the code asks for it (SingleTask cancel, timeouts)",
+             "run() is entered once per TCPServer object (it is only reached through __await__)",
+             "a task group is used only by tasks running inside its async-with block (rely on the trio TaskGroup contract)",
+             "trio.serve_listeners closes the stream when the handler returns (used for the TLS-handshake-failed exit of the trio run())"]
+
+PLAN["C16"] = {
+    "units": EVENT_UNITS + [AW + "WorkerContext.mark_request", TW + "WorkerContext.mark_request", AW + "WorkerContext.__init__", TW + "WorkerContext.__init__",
+                            ATG + "_handle", TTG + "_handle", ATG + "TaskGroup.spawn_app", TTG + "TaskGroup.spawn_app"] + SINGLE_UNITS + SERVER_UNITS,
+    "trusted_base": LIB_IO + LIB_RT,
+    "assumptions": COMMON_ASSUME + RT_ASSUME + ["worker independence is decided as refinement: both implementations of every runtime-facing class are proved against the same interface clauses (the clause texts are shared in the contract files); trace equality of two schedulers on the same timing is not expressed"],
+    "explanation": "the asyncio and the trio implementation of Event, SingleTask, TaskGroup._handle/spawn_app, WorkerContext and TCPServer satisfy the same interface clauses: exactly the event's bytes are written once, a failed write tells the protocol, idle reports arm/disarm the timer, what is read is forwarded unchanged and in order, EOF is reported to the protocol, Closed is handed last, the transport is closed on every exit, the protocol gets a copy of the lifespan state",
+    "level_text": "Every C16 clause is a postcondition / loop clause proved for both classes over all event values, read results and transport failures (exceptions of the transport models), with the protocol abstracted by its port contract.",
+    "level_note": "Trusted: pyvc encoder, runtime and transport models (models_rt.py, models_io.py). Refinement of one interface by two implementations, not a relational proof over two schedules. Finding F16a (asyncio does not report an EOF seen through at_eof()) is demonstrated natively.",
+}
+PLAN["C07"] = {
+    "units": SINGLE_UNITS + SERVER_UNITS + [H1P + "_handle_events", H1P + "_maybe_recycle", H1P + "handle", HP + "_handle_events", HP + "stream_send", HP + "idle",
+                                            WSU + "idle", HS + "idle", HS + "handle", WSU + "handle"],
+    "trusted_base": LIB_IO + LIB_H11 + LIB_H2 + LIB_RT,
+    "assumptions": COMMON_ASSUME + RT_ASSUME + ["time is a ghost clock that advances only at suspensions; wait_for / move_on_after fire at exactly their deadline (scheduling slack 0)",
+                                                "liveness (that a suspended task is eventually resumed) is not expressed"],
+    "explanation": "timer: started at t0 the idle task makes the server close at min(shutdown, t0 + keep_alive_timeout), never later, earlier only on shutdown (ghost clock); at most one timer task per connection (lock-protected monitor invariant of both SingleTask classes); Updated(idle) arms, Updated(busy) disarms; the timer is armed after initiate and before the first read; HTTP/1 reports busy at each request head and idle only after a successful recycle; HTTP/2 reports idle exactly when no stream is open or all are idle; a failed write, EOF or timeout tells the protocol Closed and closes the transport; run() closes the transport on every exit",
+    "level_text": "Postconditions with a ghost clock, a monitor invariant and call-order clauses proved for every path (all transport failures, all event values); the protocol-side idle reporting is part of the H11/H2 protocol contracts.",
+    "level_note": "Trusted: pyvc encoder, runtime/transport models, M_h11/M_h2. Findings F7a (error responses leave the stream attached) and F7d (nothing stops the keep-alive timer before the connection's task group is joined) are demonstrated natively. Liveness not expressed.",
+}
